@@ -58,7 +58,7 @@ def _interval(pen, feas, w, j, h=1e-7):
 def oracle(tier, rng, deep=False):
     failures, samples = [], []
     ev = nontriv = 0
-    nrep = 6 if tier == "quick" and not deep else 30
+    nrep = 6 if tier == "quick" and not deep else (18 if tier == "quick" else 30)   # quick + broken obligation: 3x the quick search
     for _ in range(nrep):
         for name, obj, pen, feas, adm in pen_instances_1d(rng):
             P = obj._params
